@@ -19,7 +19,13 @@ type ReplayResult struct {
 	Output    string   `json:"output,omitempty"`
 }
 
-func (E *Engine) extraChecks(cfg *PropConfig) {}
+func (E *Engine) extraChecks(cfg *PropConfig) {
+	for _, e := range cfg.Extra {
+		if e == "labels" {
+			E.VerifyLabels()
+		}
+	}
+}
 
 // globalFacts: the elements of package-level arrays with a constant
 // initialiser that are never written outside init (lookup tables), read from
